@@ -4,12 +4,7 @@ import (
 	"context"
 	"errors"
 	"fmt"
-	"math/big"
-
-	"cosmossdk.io/math"
-	"github.com/ethereum/go-ethereum/common"
 	skywaykeeper "github.com/palomachain/paloma/v2/x/skyway/keeper"
-	skywaytypes "github.com/palomachain/paloma/v2/x/skyway/types"
 	"verifsim/core"
 )
 
@@ -89,83 +84,9 @@ func c01(r *core.Run) []*core.Violation {
 	}
 	var viols []*core.Violation
 	nBlocks := 70 + t.Intn(90)
-	var taxSet, limitSet bool
 	for i := 0; i < nBlocks && !w.Aborted; i++ {
-		// client traffic
-		nOps := t.Intn(4)
-		for j := 0; j < nOps; j++ {
-			u := w.Users[t.Intn(len(w.Users))]
-			switch k := t.Draw(10); {
-			case k < 5: // send
-				tok := w.Tokens[t.Intn(len(w.Tokens))]
-				chains := core.SortedKeys(tok.ERC20)
-				chain := chains[t.Intn(len(chains))]
-				var amt math.Int
-				switch t.Draw(6) {
-				case 0:
-					amt = math.NewInt(1)
-				case 1:
-					amt = math.NewIntFromBigInt(new(big.Int).Exp(big.NewInt(10), big.NewInt(int64(20+t.Intn(12))), nil)) // may exceed balance
-				default:
-					amt = math.NewIntFromUint64(1 + t.Uint64()%1_000_000_000_000)
-				}
-				dest := common.BytesToAddress(t.Bytes(20))
-				if t.Draw(20) == 19 {
-					dest = common.Address{} // zero address: must be rejected
-				}
-				w.Send(u, tok.Denom, chain, amt, dest)
-			case k < 7: // cancel
-				ids := sortedTransferIDs(w.Transfers)
-				if len(ids) == 0 {
-					continue
-				}
-				id := ids[t.Intn(len(ids))]
-				if t.Draw(8) == 7 {
-					id += 1000 // nonexistent
-				}
-				who := u
-				if tr := w.Transfers[id]; tr != nil && t.Draw(3) != 0 {
-					for _, cand := range w.Users {
-						if cand.Bech32() == tr.Sender {
-							who = cand // usually the owner cancels
-						}
-					}
-				}
-				w.Cancel(who, id)
-			default: // inbound deposit on the remote chain
-				tok := w.Tokens[t.Intn(len(w.Tokens))]
-				chains := core.SortedKeys(tok.ERC20)
-				chain := chains[t.Intn(len(chains))]
-				token := tok.ERC20[chain]
-				if t.Draw(10) == 9 {
-					token = common.BytesToAddress(t.Bytes(20)) // unregistered ERC-20
-				}
-				var recv [32]byte
-				switch t.Draw(6) {
-				case 0:
-					recv = palomaReceiver(moduleAddr(skywaytypes.ModuleName)) // blocked module account
-				case 1:
-					copy(recv[:], t.Bytes(32)) // garbage
-				default:
-					recv = palomaReceiver(w.Users[t.Intn(len(w.Users))].Addr)
-				}
-				w.Deposit(chain, w.EvmUsers[t.Intn(len(w.EvmUsers))], token, recv, new(big.Int).SetUint64(1+t.Uint64()%1_000_000_000))
-				r.Stats.Probe("deposit_sent")
-			}
-		}
-		// governance changes tax / limits mid-flight
-		if !w.Gov.Busy() && t.Chance(1, 40) {
-			tok := w.Tokens[t.Intn(len(w.Tokens))]
-			if !taxSet || t.Draw(2) == 0 {
-				rate := []string{"0.01", "1/3", "0", "0.2", "2.5"}[t.Intn(5)]
-				w.Gov.Propose("tax "+rate, nil, Legacy(&skywaytypes.SetBridgeTaxProposal{Title: "tax " + rate, Description: "d", Rate: rate, Token: tok.Denom}))
-				taxSet = true
-			} else if !limitSet {
-				w.Gov.Propose("limit", nil, Legacy(&skywaytypes.SetBridgeTransferLimitProposal{Title: "limit", Description: "d", Token: tok.Denom,
-					Limit: math.NewIntFromUint64(1 + t.Uint64()%1_000_000_000_000_000), LimitPeriod: skywaytypes.LimitPeriod_DAILY}))
-				limitSet = true
-			}
-		}
+		w.RandomClientOps()
+		w.RandomGovernance()
 		// collaborator fault for this block
 		fp.armed = false
 		if faulty && t.Chance(1, 6) {
